@@ -239,4 +239,18 @@ var checks = map[string]*check{
 		Assumptions: []string{"states are canonical because the reference state is exactly what plugin and clients can observe (value, liveness, client count)", "no schedule control over real processes; the pid watcher polls once a second, so 'process gone' is awaited for up to 10 s"},
 		Parts:       []part{{Name: "histories", Kind: "enum", Bin: "e3.test", Test: "TestC15"}},
 	},
+	"C20": {
+		Title: "Concurrent use of clients and brokers is free of data races and panics",
+		Level: "model_checking",
+		Rule: "explorer part: 17 concurrent mixes (5 goroutines x 2 NextId on each broker kind; 3 concurrent Dispense; 2 Dispense / 2 calls / a brokered Accept+Dial / accessor calls racing with Kill and a second Kill) on net/rpc, gRPC and gRPC+mux under every schedule / timer order / select choice with <= d deviations, atomics and every close() being scheduling points (a double close is recorded, not fatal); " +
+			"race part: the same operation pairs run free-running under the Go race detector (separate pass; not schedule-exhaustive); non-trivial = >= 2 alternatives at some decision point",
+		Assumptions: []string{
+			"the data-race clause is decided by the race detector over operation pairs, not by exhaustive exploration (a cooperative scheduler's hand-offs are happens-before edges and would blind it); the evidence of that part says exhaustive:false",
+			"panics in library-spawned goroutines kill the worker and are attributed to the journalled execution",
+		},
+		Parts: []part{
+			{Name: "schedules", Kind: "explore", Scen: "conc_ops", Depths: depths([]int{2}, []int{2, 3}), Budget: budget(4*time.Minute, 25*time.Minute)},
+			{Name: "race-pass", Kind: "enum", Bin: "e3.test", Test: "TestRacePass"},
+		},
+	},
 }
